@@ -47,7 +47,7 @@ def only_native(m):
     return True
 native = [m for m in caught if only_native(m)]
 out.append("Three rounds (round 1: `Cxx-sK`, 30 changes; round 2: `Cxx-r2sK`, 15 changes for C06 C09 C10 C16 C17; round 3: `Cxx-r3sK`, 15 changes for C05 C07 C08 C13 C15, each round told the earlier rounds' changes and asked for different ones). **%d of %d are caught** by the registered quick check; of those, %d are caught only by a BOUNDED native stand-in or native fallback (§7.9) -- a literal instance happened to expose them -- not by a discharged obligation. The remaining %d are token templates, the proc-macro crate, file I/O, or functions in reach of neither verifier for which no literal instance was written; each row says which.\n" % (len(caught), len(metas), len(native), len(metas) - len(caught)))
-out.append("What the rounds changed in the machinery: round 1 led to the routing contracts (§7.7) and to every format row in C10's quick tier; round 2 to `c09_routing`, `c09_object`, `c17_facade`, `c17_builder`, the native history fallback for Verus and the native run of timed-out literal harnesses; round 3 to the `tier=native` stand-ins for `sanitize`, `break_cycles`, the whole of `convert_rust_extension`, the multi-type arm, and to the C08 defect repaired by fd98916.\n")
+out.append("What the rounds changed in the machinery: round 1 led to the routing contracts (§7.7) and to every format row in C10's quick tier; round 2 to `c09_routing`, `c09_object`, `c17_facade`, `c17_builder`, the native history fallback for Verus and the native run of timed-out literal harnesses; round 3 to the `tier=native` stand-ins for `sanitize`, `break_cycles`, the whole of `convert_rust_extension`, the multi-type arm, and to the C08 defect repaired by fd98916; the continuation session added the `type_ident` stand-ins (C17-s2, C05-r3s2).\n")
 out.append("| seed | change | needs | result of the check |")
 out.append("|------|--------|-------|---------------------|")
 for p in sorted(glob.glob(os.path.join(V, "seeded", "*", "meta.json"))):
